@@ -34,8 +34,8 @@ claimed = {
          "must-execute + origin/width-expression analysis", "§4 C14"),
  "C15": ("narrow structural clauses only (level other): the selector-filtering and position-wise-sum half of the property, decided on the SSA of plonk/gates — every gate evaluated once with its own row, selectorIndices[i], groups[selectorIndices[i]] and NumSelectors(); results added position-wise into a zeroed, returned vector; the selector constant read before RemovePrefix, exactly numSelectors constants stripped before the gate sees them, every returned constraint multiplied by the filter; computeFilter = ∏(i−s) over [start,end) skipping exactly i = row, times (UNUSED_SELECTOR−s) iff several selector polynomials, UNUSED_SELECTOR = 2^32−1. Equality of each Gate.EvalUnfiltered body with plonky2's gate polynomial for all wire values and parameterisations is numeric and NOT decided.",
          "SSA shape matching of the fold/map loops (counted-loop descriptors, must-execute, φ recurrences) + argument-role flow between caller and callee", "§5 C15 / §10.7"),
- "C16": ("presence and coverage only (level other) of the per-round extension equality and the L0 existence assertion.",
-         "must-execute + dependency + loop-coverage analysis", "§4 C16"),
+ "C16": ("presence and coverage only (level other) of the per-round extension equality and the L0 existence assertion, L0 evaluated uniformly, and the partial-product openings read through consecutive per-round windows of width NumPartialProducts (affine or cursor form). The products and quotient identities themselves are not decided.",
+         "must-execute + dependency + loop-coverage analysis + polynomial normalisation of slice bounds", "§4 C16"),
  "C17": ("strong structural claim (level other): T2 coverage generated from go/types — every Goldilocks-typed leaf of the proof (both coordinates) reaches the canonical range check itself, on every path, with full loop coverage; plus C06.",
          "type-generated field coverage + must-execute + loop-coverage analysis", "§4 C17"),
  "C18": ("strong structural claim (level other): language-level analysis of the gate regex registry (product/subset automata via regexp/syntax): each supported identifier template matches its own pattern and no other (independence of map order), no pattern matches an unimplemented gate template unless the handler refuses, the no-match exit panics, capture groups flow through checked strconv parses into the tabled constructor arguments, hiding is refused.",
